@@ -625,6 +625,99 @@ static void mtsafe_overlap_case(seqx::Runner &R, int finish_order, int with_thir
     R.end(true);
 }
 
+// ------------------------------------------------------------------------------------------------ family F11: a long run from ordinary code
+// one region spans several hundred wake-ups issued from ordinary code (a promise resolved, a mutex handed over): none of them may
+// allocate - including the bookkeeping a wake-up from a plain thread goes through (a queue that is only touched when a coroutine
+// is really queued never moves its cursor here)
+static Co<void> f11_lock_waiter(Store &, cocls::mutex &mx, int *seen) {
+    auto own = co_await mx.lock();
+    ++*seen;
+}
+static void long_run_case(seqx::Runner &R) {
+    const char *nm = "F11 300 promise resolutions and 300 mutex hand-overs from ordinary code in one region";
+    if (!R.next_case_named(nm)) return;
+    R.begin(nm);
+    {
+        Store st;
+        cocls::mutex mx;
+        int seen = 0, locked = 0;
+        auto round = [&] {
+            {
+                cocls::future<int> f;
+                cocls::promise<int> p = f.get_promise();
+                f1_waiter<int>(st, f, &seen).detach();
+                p(5);
+            }
+            {
+                cocls::mutex::ownership own = mx.try_lock();
+                f11_lock_waiter(st, mx, &locked).detach();  // parks behind the owner
+                own.release();                              // hand-over resumes it from ordinary code
+            }
+        };
+        round();  // warm-up: the storage learns the frame size
+        region_begin();
+        for (int i = 0; i < 300; i++) round();
+        // every allocation counts here, 512-byte blocks included: ordinary code that wakes one coroutine at a time gives the ready
+        // queue nothing to hold, so the allowance for the queue's own node recycling (region_allocs) does not apply
+        uint64_t n = seqx::news() - g_region_start;
+        if (n) R.fail("noalloc/long-run-from-ordinary-code", "%lu dynamic allocations in 300 rounds of resolving a promise and handing a mutex over from ordinary code", (unsigned long)n);
+        if (locked != 301) R.fail("noalloc/harness", "lock waiters completed: %d", locked);
+        R.step(600);
+    }
+    R.state(seqx::hash_str(nm));
+    R.outcome(0);
+    R.end(true);
+}
+
+// ------------------------------------------------------------------------------------------------ family F12: create_suspend_point
+// coro_queue::create_suspend_point(fn): the coroutines fn makes ready (1..3: what a suspend point holds inline) are collected into
+// the returned suspend point without any allocation, from ordinary code and from inside a coroutine
+static Co<void> f12_inside(Store &, cocls::promise<int> *p, int n, int *done) {
+    cocls::suspend_point<void> sp = cocls::coro_queue::create_suspend_point([&] {
+        for (int i = 0; i < n; i++) p[i](5);
+    });
+    co_await sp;
+    ++*done;
+}
+static void csp_case(seqx::Runner &R, int nready, bool from_coroutine) {
+    std::ostringstream d;
+    d << "F12 create_suspend_point ready=" << nready << (from_coroutine ? " called from a coroutine" : " called from ordinary code");
+    if (!R.next_case_named(d.str())) return;
+    R.begin(d.str());
+    {
+        Store st[4];
+        uint64_t per_round[3];
+        for (int round = 0; round < 3; round++) {
+            cocls::future<int> f[3];
+            cocls::promise<int> p[3];
+            int seen[3] = {0, 0, 0}, done = 0;
+            for (int i = 0; i < nready; i++) {
+                p[i] = f[i].get_promise();
+                f1_waiter<int>(st[i], f[i], &seen[i]).detach();
+            }
+            region_begin();
+            if (from_coroutine)
+                f12_inside(st[3], p, nready, &done).detach();
+            else {
+                cocls::suspend_point<void> sp = cocls::coro_queue::create_suspend_point([&] {
+                    for (int i = 0; i < nready; i++) p[i](5);
+                });
+                sp.clear();
+            }
+            per_round[round] = region_allocs();
+            for (int i = 0; i < nready; i++)
+                if (seen[i] != 1) R.fail("noalloc/harness", "waiter %d not resumed with the value (state %d)", i, seen[i]);
+            R.step();
+        }
+        // round 0 is the warm-up of the frame storages
+        if (per_round[1] || per_round[2])
+            R.fail("noalloc/create-suspend-point", "create_suspend_point collecting %d ready coroutine(s) allocates: %lu, %lu", nready, (unsigned long)per_round[1], (unsigned long)per_round[2]);
+    }
+    R.state(seqx::hash_str(d.str()));
+    R.outcome(0);
+    R.end(true);
+}
+
 // ------------------------------------------------------------------------------------------------ family F9: callback promise in a storage
 // make_promise<T>(fn, storage): the callback future lives in the storage block (the frame-placement path without a coroutine)
 static void make_promise_storage_case(seqx::Runner &R, int outcome) {
@@ -677,6 +770,9 @@ void seqx_run(seqx::Runner &R, const std::string &tier) {
                             f1_case<Big>(R, "struct32", nco, nh, cb, out, false, prebuilt);
                     }
     mutex_case(R);
+    long_run_case(R);
+    for (int n = 1; n <= 3; n++)
+        for (int fc = 0; fc < 2; fc++) csp_case(R, n, fc != 0);
     buffer_store_case(R);
     for (int out = 0; out < 3; out++) make_promise_storage_case(R, out);
     moved_store_case(R, 0);
